@@ -439,10 +439,11 @@ def step (scn : Scn) (f : PumpFilter) (s : St) : Op → St × List Tok
     let (s', t) := feedBytes scn f s (min (s.fed + n) scn.full.length)
     (s', withUrl s' t)
   | .call k isList =>
+    let s := { s with lists := if isList then k :: s.lists else s.lists }
     if !s.handed then (s, [.nosession]) else
     if s.done ∨ s.shutting then (s, [.done k .closed]) else
     if scn.postOk (.call k) then
-      let s' := { s with pending := s.pending ++ [k], lists := if isList then k :: s.lists else s.lists }
+      let s' := { s with pending := s.pending ++ [k] }
       (s', withUrl s' [.post (.call k)])
     else
       let (s', t) := settle { s with wdead := true }
